@@ -38,6 +38,9 @@ def specs(pid, tier):
         sp.append(("cm3", 0x01, ((255, None),)))
         sp.append(("cm3", 0x00, ((200, None),)))
         sp.append(("cm3", 0x81, ((129, None),)))
+        # two pages of raw lines, with and without the 243-byte pattern block (which precedes page 1 only)
+        sp.append(("cm3", 0x80, ((129, None), ("page", None), (255, None))))
+        sp.append(("cm3", 0x81, ((128, None), ("page", None), (200, None))))
         if T:
             sp.append(("cm3", 0x01, ((128, None), (255, None))))
             sp.append(("cm3", 0x80, ((0x80, None),)))
@@ -101,6 +104,8 @@ def specs(pid, tier):
             sp.append(("cm3", typ, ((None, "all-left"),)))
         sp.append(("mge", "raw", 3, True))
         sp.append(("mge", "rle", 2, True))
+        sp.append(("cm3", 0x01, ((128, None),), 2))  # padding after the picture data (tolerated and counted by the tool)
+        sp.append(("cm3", 0x80, ((None, "all-up"),), 1))
         for tb in (0, 1, 3):
             sp.append(("vef", tb, 2, None))
         sp.append(("vefsq", 3))
@@ -145,7 +150,34 @@ def specs(pid, tier):
     return sp
 
 
+STDOUT_FINDINGS = []
+
+
 def make_case(spec):
+    """build the case and note every path on which convert() sent text to standard output: the PPM tools write the picture
+    to standard output when no output file is named, so anything else printed there ends up inside the picture"""
+    case = _make_case(spec)
+    if getattr(case, "decoder", "") != "veftopng":
+        for p in getattr(case, "paths", []):
+            if p.get("stdout"):
+                # replay on the real decoder: a model of this path, real convert(), real sys.stdout captured
+                import contextlib
+                import io as _io
+
+                v, m = smt.check(list(p["pc"]) + list(case.premises), 30000, True)
+                if v != "sat":
+                    raise HarnessGap(f"{case.name}: path with standard-output text has no model ({v})")
+                cap = _io.StringIO()
+                with contextlib.redirect_stdout(cap):
+                    _, raw = case.replay(m)
+                if not cap.getvalue():
+                    raise HarnessGap(f"{case.name}: modelled standard-output text {p['stdout'][0]} does not reproduce on the real decoder")
+                STDOUT_FINDINGS.append((f"stdout-text:{case.decoder}", f"{case.name}: convert() writes {cap.getvalue()[:60]!r} to standard output ({p['status']} path); with the picture going to standard output the stream is no longer header + samples, and differs from the file written by the same call", {"case": str(spec), "input_hex": bytes(raw).hex()[:400]}))
+                break
+    return case
+
+
+def _make_case(spec):
     k = spec[0]
     if k == "hrs":
         return S.hrs_case(*spec[1:])
@@ -218,6 +250,8 @@ def work(job):
 
 
 def _work(pid, spec, st, out):
+    del D.PENDING_GAPS[:]
+    del STDOUT_FINDINGS[:]
     try:
         if pid == "C16":
             obligations_pixels(out, spec, st, pid)
@@ -243,6 +277,17 @@ def _work(pid, spec, st, out):
             obligations_damage(out, spec, st)
     except HarnessGap as e:
         out["sigs"].append(("harness-gap", f"{spec}: {e}", None))
+    for g in D.PENDING_GAPS:
+        out["sigs"].append(("harness-gap", f"{spec}: {g}", None))
+    if pid == "C18":
+        st.bump("obligations")
+        seen = set()
+        for f in STDOUT_FINDINGS:
+            if f[0] not in seen:
+                seen.add(f[0])
+                out["sigs"].append(f)
+        if not seen:
+            st.bump("identity")
     out["stats"] = st.export()
     return out
 
@@ -851,7 +896,7 @@ def obligations_damage(out, spec, st):
                 continue
             n = len(w.bitmap.cells)
             tcond = [str(c) for c in p["pc"] if "type0" in str(c)]
-            which = "type4-no-pixel-branch" if any("type0 == 4" == c for c in tcond) else "short-data"
+            which = ("type4-no-pixel-branch" if any("type0 == 4" == c for c in tcond) else "short-data") + (":640-wide" if w.width == 640 else "")
             if n != w.width * w.height:
                 out["sigs"].append((f"silent:veftopng:{which}", f"{case.name}: {w.width}x{w.height} PNG written with {n} pixels", {"case": str(spec)}))
             # every pixel must index the 64-entry palette
@@ -1021,19 +1066,44 @@ def _truncation_sweeps(out, spec, st):
         import contextlib
 
         if k == "veftrunc":
-            full = bytes([0, 0] + list(range(16))) + bytes((i * 3) % 256 for i in range(32000))
-            with contextlib.redirect_stdout(io.StringIO()):
-                stt, n, exp = run(full)
-            if stt != "ok" or n != exp:
-                raise HarnessError(f"reference VEF file is not accepted: {stt} {n} {exp}")
-            for L in list(range(0, 24)) + [18 + 160 * kk + d for kk in (1, 100) for d in (-1, 0, 1)] + [len(full) - 1, len(full) + 1, len(full) + 160]:
-                raw = full[:L] if L <= len(full) else full + bytes(L - len(full))
+            # the Image.open contract of the symbolic model, checked on the libraries themselves (not through the tool)
+            from PIL import Image as _Image
+
+            dd = tempfile.mkdtemp(prefix="vefc")
+            try:
+                for npix, must_raise in ((0, True), (640 * 199, True), (640 * 200 - 1, True), (640 * 200, False)):
+                    fn = os.path.join(dd, "c.png")
+                    with open(fn, "wb") as fh:
+                        _png.Writer(640, 200, palette=[(i, i, i) for i in range(64)], bitdepth=8).write_array(fh, [1] * npix)
+                    try:
+                        im = _Image.open(fn)
+                        im.resize((640, 400))
+                        im.close()
+                        raised = False
+                    except OSError:
+                        raised = True
+                    if raised != must_raise:
+                        raise HarnessError(f"Image.open contract of the symbolic model does not hold for {npix} of 128000 pixels (raised={raised})")
+            finally:
+                import shutil as _sh
+
+                _sh.rmtree(dd, ignore_errors=True)
+            # type 0: 320x200x16; type 1: 640x200x4 (re-opened and resized through Pillow, whose loader is what notices
+            # missing rows: this sweep is also the validation of the Image.open contract used by the symbolic cases)
+            for tbyte, tag in ((0, ""), (1, ":640-wide")):
+                full = bytes([0, tbyte] + list(range(16))) + bytes((i * 3) % 256 for i in range(32000))
                 with contextlib.redirect_stdout(io.StringIO()):
-                    stt, n, exp = run(raw)
-                st.bump("obligations")
-                out["paths"] += 1
-                if stt == "ok" and n != exp:
-                    out["sigs"].append((f"silent:veftopng:{'short' if L < len(full) else 'long'}-data", f"VEF of {L} bytes: PNG written with {n} pixel values for {exp} pixels", {"length": L}))
+                    stt, n, exp = run(full)
+                if stt != "ok" or n != exp:
+                    raise HarnessError(f"reference VEF file is not accepted: {stt} {n} {exp}")
+                for L in list(range(0, 24)) + [18 + 160 * kk + d for kk in (1, 100) for d in (-1, 0, 1)] + [len(full) - 1, len(full) + 1, len(full) + 160]:
+                    raw = full[:L] if L <= len(full) else full + bytes(L - len(full))
+                    with contextlib.redirect_stdout(io.StringIO()):
+                        stt, n, exp = run(raw)
+                    st.bump("obligations")
+                    out["paths"] += 1
+                    if stt == "ok" and n != exp:
+                        out["sigs"].append((f"silent:veftopng:{'short' if L < len(full) else 'long'}-data{tag}", f"VEF (type {tbyte}) of {L} bytes: PNG written with {n} pixel values for {exp} pixels", {"length": L, "type": tbyte}))
         else:
             # squashed: a literal group that overruns its record must be reported, not decoded short
             rec_ok = bytes([81, 208, 5])  # 80 x byte 5 ... record of 2 payload bytes: count byte then data
@@ -1101,7 +1171,7 @@ def run_prop(pid, tier):
     if pid == "C16":
         decoder_history(ctx, ["hrstoppm", "pixtopgm", "maxtoppm", "mgetoppm"])
     if pid == "C17":
-        decoder_history(ctx, ["rattoppm", "cm3toppm"])
+        decoder_history(ctx, ["rattoppm", "cm3toppm", "mgetoppm:rle"])
     ctx.extra["solver"] = {"z3": smt.z3_version()}
     ctx.assume("iotostr / strtoio / pack are the identity on single bytes 0..255 (latin-1); f.read(n) returns min(n, remaining) bytes; ord('') raises TypeError; sys.exit and exceptions = failure reported")
     ctx.assume("run lengths above the unwinding bound are covered only at the listed boundary values; fixed-size formats are checked on prefixes (uniform loop bodies) and by concrete truncation sweeps of one well-formed file")
@@ -1119,6 +1189,11 @@ def history_files():
                          (bytes([0, 0x18, 0, 0, 0]) + bytes((i * 13 + 1) % 256 for i in range(6144)), (3, False, 256, None, None, False))]
     head_m = lambda pal: bytes([0]) + pal + bytes([0, 0xFF]) + bytes(S.MGE_TITLE) + bytes([7, 0x21])  # noqa: E731
     files["mgetoppm"] = [(head_m(pal_a) + bytes((i * 3) % 256 for i in range(32000)), ()), (head_m(pal_b) + bytes((i * 9 + 2) % 256 for i in range(32000)), ())]
+    # run-length MGE: both pictures use the same run values under different palettes (a decoder that remembers rendered
+    # runs, palettes or positions from picture A shows it on picture B)
+    head_mr = lambda pal: bytes([0]) + pal + bytes([0, 0]) + bytes(S.MGE_TITLE) + bytes([7, 0x21])  # noqa: E731
+    runs = lambda k: b"".join(bytes([250, (i * k) % 256]) for i in range(128)) + bytes([0])  # noqa: E731
+    files["mgetoppm:rle"] = [(head_mr(pal_a) + runs(7), ()), (head_mr(pal_b) + runs(7), ())]
     head_r = lambda pal: bytes([0xEE, 1, 0]) + pal  # noqa: E731
     body_r = lambda k: bytes(b for i in range(199 * 160) for b in ([(i * k) % 0xEE]))  # noqa: E731  (never the escape byte)
     files["rattoppm"] = [(head_r(pal_a) + body_r(3), ()), (head_r(pal_b) + body_r(7), ())]
@@ -1143,9 +1218,10 @@ def decoder_history(ctx, decoders):
     from vf.core import REPO
 
     files = history_files()
-    for modname in decoders:
+    for key in decoders:
+        modname = key.split(":")[0]
         mod = importlib.import_module("coco." + modname)
-        (raw_a, args_a), (raw_b, args_b) = files[modname]
+        (raw_a, args_a), (raw_b, args_b) = files[key]
 
         def dec(raw, args):
             import contextlib
